@@ -23,7 +23,7 @@ func TestMain(m *testing.M) {
 	stats.Assume(
 		"oracle is the validity predicate of the property statement: 1 <= quota <= limit; sum on record <= limit stays <= limit unless the answered quota is the minimum 1; sum > limit => the answered quota does not grow (a new instance gets the minimum 1); token-bucket burst in [0, global burst] and within 1 of quota/limit*burst",
 		"instances are honest: they report the configuration last answered to them and a usage derived from it (the gateway's own formula for the request level, plus arbitrary levels in the pure check)",
-		"the limiter is the real rateLimiter assembled by the verif hook around a scripted elector and a lister over a plain indexer; stores: local and API-backed write-through over the fake clientset",
+		"the limiter is the real rateLimiter assembled by the verif hook around the real leader elector (driven by leadership events through a hook, no leases) and a lister over a plain indexer; stores: local and API-backed write-through over the fake clientset",
 		"Go runtime, pgregory.net/rapid v1.3.0",
 	)
 	stats.Main(m)
